@@ -12,7 +12,9 @@ RULE = (
     "parts: perm = all permutations of surface lists (<=3 surfaces of mixed sizes, symmetric and full-span sets) x flows; split = every "
     "interior split column of a full-span surface; far = separation ladder of a second surface; wrap = MPhys Demux->AeroSolverGroup->Mux"
     "(+AeroFuncsGroup) vs native AeroPoint x compressible; mux = (de)multiplexers on EVERY unit vector of their input spaces (a complete "
-    "basis: proves the linear maps) incl. matrix-free fwd/rev products; non-trivial = forces non-zero / basis vector mapped"
+    "basis: proves the linear maps) incl. matrix-free fwd/rev products; msec = multi-section dictionary vs ordinary surface with the unified mesh x all option "
+    "combinations; asdecouple = two structural surfaces 2e5 m apart in one AerostructPoint vs each analysed alone (model pairs x symmetry); "
+    "non-trivial = forces non-zero / basis vector mapped"
 )
 ASSUMPTIONS = ["finite alphabets; <=3 surfaces, nx<=3, ny<=7", "OpenMDAO/NumPy/SciPy/mphys trusted"]
 BOUND = {"quick": "<=3 surfaces, all permutations, 3 symmetry patterns (full, half, mixed); ladder d in {10,1e2,1e4,1e6} chords", "thorough": "adds sizes, flows"}
